@@ -1225,12 +1225,16 @@ struct Engine {
       g_cur_op = i + 1;
       int ai = rng.below(NP);
       uint32_t r = rng.below(100);
-      if (reloc_mode && rng.chance(1, 8)) {
-        int which = rng.below(NP + NQ + NZ);
-        if (which < NP) relocate(P[which], which, "P");
-        else if (which < NP + NQ) relocate(Q[which - NP], which, "Q");
-        else relocate(Z[0], which, "Z");
-        continue;
+      {
+        // drawn in every mode so that a history is the same with and without relocations (differential attribution of C14)
+        bool rel = rng.chance(1, 8);
+        int which = rng.below(NP + NQ + (NZ ? NZ : 1));
+        if (reloc_mode && rel) {
+          if (which < NP) relocate(P[which], which, "P");
+          else if (which < NP + NQ) relocate(Q[which - NP], which, "Q");
+          else if (NZ) relocate(Z[0], which, "Z");
+          if (g_cut) break;
+        }
       }
       if (r < 58) op_mutate(ai);
       else if (r < 76) op_pair(ai);
